@@ -178,6 +178,7 @@ def check(facts, rep, tier, cfg):
     rep.rule("C11.S7", "who-may: the functions that touch the critical resources behind this property are those of the reference tree (flow table, closed flag, per-stream / datagram / outbound queues, last-pong timestamp, client id maps, shared TLS identity)")
     import whomay
     whomay.check(facts, rep, "C11.S7", "C11")
+    whomay.check_new_statics(facts, rep, "C11.S7", "C11")
 
 
 _RECV_ONE = {"recv", "poll_recv", "try_recv", "blocking_recv"}
